@@ -154,6 +154,22 @@ class _Acc:
 
 
 # ------------------------------------------------------------------------------------------------ R1: forward / inverse point maps
+def _enter_forward(ctx, fwd, ci, point):
+    """_get_loc_a_basic is a private helper: the names of its parameters are nobody's interface, so it is entered by position (record, point) -
+    the way its caller in the module enters it.  Should the two have been swapped (caller and helper together), the 5x3 record and the 3-vector
+    tell themselves apart by shape: the order in which the helper runs without a run-time error is the one meant."""
+    runs = N.explore(ctx, N2P, fwd, positional=[ci, point])
+    a = fwd.args
+    if runs and all(r.pyerror for r in runs) and len(a.posonlyargs + a.args) == 2:
+        try:
+            alt = N.explore(ctx, N2P, fwd, positional=[point, ci])
+        except Unsupported:
+            return runs
+        if alt and not any(r.pyerror for r in alt):
+            return alt
+    return runs
+
+
 def r1_inverse_pair(ctx):
     acc = _Acc(ctx)
     fwd = ctx.src.func(N2P, "_get_loc_a_basic")
@@ -175,7 +191,7 @@ def r1_inverse_pair(ctx):
     for ctype, label in ((1, "rectangular"), (2, "cylindrical"), (3, "spherical")):
         ci = N.as_arr(((F.sym("cid"), F.const(ctype), O_), org) + tuple(T))
         # ---- forward
-        runs = _returns(ctx, N.explore(ctx, N2P, fwd, {"coordinfo": ci, "a": N.as_arr(a)}), f"_get_loc_a_basic ({label})", fwd)
+        runs = _returns(ctx, _enter_forward(ctx, fwd, ci, N.as_arr(a)), f"_get_loc_a_basic ({label})", fwd)
         if not runs:
             continue
         cells = ("cid", "o0", "o1", "o2", "al", "be", "ga")
